@@ -31,6 +31,9 @@ CLAIMED = {
     "C14": ("exploration", "DESIGN.md 4 (C14)", "seeded deterministic simulation: writer histories vs content model with guard zones; chunked stream-copy matrix over reader backends under short reads/writes and EINTR; FileWriter open-flag matrix checked on the durable bytes of the simulated disk",
             "Three scenario families: (a) MemoryWriter inside ASan-poisoned, sentinel-filled guard zones and DynamicMemoryWriter, driven by seeded histories of writes, typed writes and seeks with boundary/wrap arguments against a content model, plus typed write->typed read inverse and size-prefix limits 127/128, 255/256, 32767/32768, 65535/65536; (b) Writer::Write<Chunk>(Reader&) for nine chunk sizes x source lengths around chunk multiples x start positions x four reader backends x memory/file destinations; (c) all 16 open-flag subsets x {exists, absent} with the disk inspected after close. Sampling evidence, not proof.",
             "Trusts the content model in sim/scen/writers.cpp; durable content when neither Truncate nor Append is given is deliberately not asserted (the flags do not say)."),
+    "C17": ("exploration", "DESIGN.md 4 (C17)", "seeded deterministic simulation: directory layouts of loose files, sub-directories and reference-encoded VOL/CLM archives with overlapping names; directory listing order is a seeded permutation at the readdir seam; layout model holding the set of allowed answers",
+            "Seeded layouts (0..4 loose files, sub-directories incl. ones named *.vol / *.clm, 0..5 archives with members drawn from a shared name pool in several letter cases) are queried through ResourceManager (GetResourceStream with and without archive access, rooted paths, type and pattern listings, FindContainingArchivePath, GetArchiveFilenames) and through each archive object (Contains/GetIndex agreement, case- and './'-blindness, GetIndex(GetName(i)) = i, out-of-range indices on every per-member call). The order in which the directory lists entries - which decides archive load order - is permuted per run at the readdir seam; where the property leaves a choice (which archive serves a duplicated name) any allowed answer is accepted. Sampling evidence, not proof.",
+            "Type listings are not compared in worlds where a loose file's extension matches the query only in another letter case (property silent); pattern queries are letter-only literals so they cannot match the directory part of a path."),
 }
 
 NOT_APPLICABLE = {
